@@ -35,7 +35,7 @@ META = {
 
 XSI = seam.XSI
 UNKNOWN_EL = ["zzz", "{urn:zz}q", "v", "{urn:a}known", "{urn:b}zz", "n"]
-UNKNOWN_AT = ["zz", "{urn:zz}a", "{%s}foo" % XSI, "{%s}schemaLocation" % XSI]
+UNKNOWN_AT = ["zz", "{urn:zz}a", "{%s}foo" % XSI, "{%s}schemaLocation" % XSI, "{%s}noNamespaceSchemaLocation" % XSI]
 
 _DOC = PART.get("doc", "basic")
 _CLS, _OBJ = mutate.DOCS[_DOC]
@@ -136,9 +136,9 @@ def inject_attribute(e: int, name: int, txt: str) -> bool:
 
 def bad_value(txt: str, where: int) -> bool:
     """
-    pre: 1 <= len(txt) <= 2
+    pre: len(txt) <= 2
     pre: small_alphabet(txt)
-    pre: 97 <= ord(txt[0]) <= 122
+    pre: len(txt) == 0 or 97 <= ord(txt[0]) <= 122
     pre: 0 <= where <= 1
     post: _
     """
@@ -281,6 +281,6 @@ def plan(tier):
             jobs.append(Job("inject_attribute", {"doc": doc, "handler": h, "fup": fup, "fua": fua, "fcw": fcw}, 240, 30))
     for c_i, (fup, fua, fcw) in enumerate(combos):
         jobs.append(Job("bad_value", {"doc": "basic", "handler": ("native", "lxml")[c_i % 2], "fup": fup, "fua": fua, "fcw": fcw}, 240, 30))
-        for doc in (("basic", "parenta") if quick else ("basic", "parenta", "holder", "lists", "wrapped")):
+        for doc in (("basic", "parenta", "holder") if quick else ("basic", "parenta", "holder", "lists", "wrapped")):
             jobs.append(Job("dict_unknown", {"doc": doc, "fup": fup, "fua": fua, "fcw": fcw}, 240, 30))
     return jobs
